@@ -151,9 +151,22 @@ impl Lim {
     }
 }
 
-/// emission interval in ns as the library computes it (C18 is checked separately)
+/// emission interval as the properties define it: period / count_per_period in whole nanoseconds
+/// (exact integer quotient, independent of the library's float computation)
 pub fn emission_ns(count: i64, period: i64) -> u128 {
-    Rate::from_count_and_period(count, period).period().as_nanos()
+    if count <= 0 || period <= 0 {
+        return Rate::from_count_and_period(count, period).period().as_nanos();
+    }
+    (period as u128) * 1_000_000_000 / (count as u128)
+}
+
+/// limits forced from the command line (`--limits count:period,...`): used by the failing-input
+/// search when the rate computation disagrees with the exact quotient
+pub fn forced_limits() -> Vec<(i64, i64)> {
+    match crate::arg_value("--limits") {
+        Some(s) => s.split(',').filter_map(|p| { let mut it = p.split(':'); Some((it.next()?.parse().ok()?, it.next()?.parse().ok()?)) }).collect(),
+        None => vec![],
+    }
 }
 
 /// The ideal token bucket of C01/C02, in ns units (exact integer arithmetic, i128).
@@ -191,8 +204,11 @@ pub fn pick_limits(rng: &mut crate::Rng) -> (i64, i64, i64) {
     let rates: [(i64, i64); 12] = [
         (1_000_000_000, 1), (1000, 1), (10, 1), (1, 1), (100, 60), (7, 60), (1, 60), (3, 1), (1, 3600), (1, 9_000_000), (999_999_937, 2), (60, 60),
     ];
+    let forced = forced_limits();
     loop {
-        let (count, period) = *rng.pick(&rates);
+        let (count, period) = if !forced.is_empty() && rng.chance(2, 3) { *rng.pick(&forced) }
+            else if rng.chance(1, 6) { (rng.range(1, 5000), rng.range(1, 100)) }
+            else { *rng.pick(&rates) };
         let b = *rng.pick(&[1i64, 1, 2, 2, 3, 5, 10, 100, 1 << 20]);
         let e = emission_ns(count, period) as i128;
         if e >= 1 && e * (b as i128) <= (1i128 << 60) {
